@@ -124,18 +124,14 @@ def victimLogin : List (Nat × Ev) :=
    (0, .bind "v".toList),
    (0, .stanza { kind := .presence [], sender := [], to := [] })]
 
-def startWith (cfg : Cfg) : Server := (run cfg init victimLogin).1
+def start : Server := (run cfg init victimLogin).1
 
-def stepLine (cfg : Cfg) (s : Server) (line : String) : Server × String :=
+def stepLine (s : Server) (line : String) : Server × String :=
   match words line with
-  | ["reset"] => (startWith cfg, "ok")
+  | ["reset"] => (start, "ok")
   | ws =>
     match parseEv ws with
     | some ev => let r := step cfg s (1, ev); (r.1, obs r.1 r.2)
     | none => (s, "bad-op")
 
-/-- `qxdriver_c16` models the code as it is; `qxdriver_c16 fixed` models it with both diffs of /verif/fixes
-applied (used to validate the fixes against a patched build, not by the check itself) -/
-def main (args : List String) : IO Unit :=
-  let c := if args.contains "fixed" then { cfg with fixPreauth := true, fixReply := true } else cfg
-  Qx.Driver.run (startWith c) (stepLine c)
+def main : IO Unit := Qx.Driver.run start stepLine
